@@ -572,9 +572,12 @@ def main(repo: str, outpath: str) -> int:
         init = find_def(dep.body, "__init__") if dep is not None else None
         if init is not None:
             for node in ast.walk(init):
+                # self._validate_dicts(ARG, KEYS), or a helper of the class wrapping it:
+                # self.<helper>(ARG, KEYS) with ARG one of the three item arguments
                 if (isinstance(node, ast.Call) and isinstance(node.func, ast.Attribute)
-                        and node.func.attr == "_validate_dicts" and len(node.args) == 2
-                        and isinstance(node.args[0], ast.Name)):
+                        and isinstance(node.func.value, ast.Name) and node.func.value.id in ("self", "cls", "HTMLDependency")
+                        and len(node.args) == 2 and not node.keywords
+                        and isinstance(node.args[0], ast.Name) and node.args[0].id in ("script", "stylesheet", "meta")):
                     try:
                         ks = const_eval(node.args[1], core)
                     except _NotConst:
@@ -592,7 +595,7 @@ def main(repo: str, outpath: str) -> int:
         for meth in dep.body:
             if isinstance(meth, ast.FunctionDef) and (meth.name == "__init__" or meth.name.startswith("_validate")):
                 for node2 in ast.walk(meth):
-                    if (isinstance(node2, ast.Compare) and len(node2.ops) == 1 and isinstance(node2.ops[0], ast.In)
+                    if (isinstance(node2, ast.Compare) and len(node2.ops) == 1 and isinstance(node2.ops[0], (ast.In, ast.NotIn))
                             and const_str(node2.left) is not None and isinstance(node2.comparators[0], ast.Name)
                             and node2.comparators[0].id == "source"
                             and (const_str(node2.left) or "") not in src_keys):
